@@ -132,6 +132,15 @@ Theorem C04_source_run_step_is_model : forall (rg : RG) (rp : RP) sp s,
 Proof. exact gen_step_run_step_is_model. Qed.
 Print Assumptions C04_source_run_step_is_model.
 
+(** what setting and removing the in-arguments does, read from the source
+    ([Step.set_step_input_context] / [unset_step_input_context]): the whole [in] mapping is written
+    over the context; afterwards exactly its keys are removed *)
+Theorem C04_source_in_args_are_model : forall sp s,
+  gen_set_step_input_context sp s = (OOk, set_step_input sp s) /\
+  gen_unset_step_input_context sp s = (OOk, unset_step_input sp s).
+Proof. intros. split; [apply gen_set_step_input_context_is_model|apply gen_unset_step_input_context_is_model]. Qed.
+Print Assumptions C04_source_in_args_are_model.
+
 (** * Non-vacuity: run expression changes between foreach iterations *)
 Definition lib4 : library :=
   [("main", [("steps", Some [
